@@ -250,3 +250,38 @@ def layered_knowledge(n: int, dist: int = 1):
             if k not in seen:
                 seen.add(k)
                 yield k
+
+
+@lru_cache(maxsize=None)
+def a5_pair_closure_reps() -> tuple:
+    """A5-PC: 5 players, singletons 0, every pair worth 0 or 1, every larger coalition the superadditive closure (best two-part
+    split) of the smaller ones; one representative per isomorphism class of the pair graph (34 games)."""
+    n = 5
+    pairs = [s for s in range(1 << n) if popcount(s) == 2]
+    perms = list(itertools.permutations(range(n)))
+
+    def relabel_mask(mask_set, perm):
+        out = set()
+        for s in mask_set:
+            t = 0
+            for i in range(n):
+                if s >> i & 1:
+                    t |= 1 << perm[i]
+            out.add(t)
+        return frozenset(out)
+    seen = set()
+    games = []
+    for m in range(1 << len(pairs)):
+        edges = frozenset(pairs[j] for j in range(len(pairs)) if m >> j & 1)
+        if edges in seen:
+            continue
+        for p in perms:
+            seen.add(relabel_mask(edges, p))
+        v = [0] * (1 << n)
+        for s in ids_by_size(n):
+            if popcount(s) == 2:
+                v[s] = 1 if s in edges else 0
+            elif popcount(s) > 2:
+                v[s] = max(v[a] + v[b] for a, b in proper_splits(s))
+        games.append(tuple(v))
+    return tuple(games)
